@@ -41,3 +41,43 @@ Theorem C07_build_levels_valid : forall c, wf_netlist c -> comb_acyclic c ->
   sched_check (stemmed stems) (nl + 1)
     (split_levels (rev (ls_starts (levelize stems (build_ops c false) len))) (build_ops c false) 0) = true.
 Proof. exact KV.Proofs.SemCompose.build_levels_valid. Qed.
+
+(** WITH FORK STRIPPING.  [build_stems c true len] is the alias table SimOps computes (stems of fan-out branches); it is
+    defined for every well-formed acyclic netlist, every line stands for the line at which the chain of "__fork__" nodes
+    driving it starts, and that line's driver comes earlier in the topological order.  Read through this table the op list
+    built with strip_forks=True is in single-assignment topological form, so the published levels are a checked schedule --
+    for EVERY well-formed, combinationally acyclic netlist; no condition on kinds, pins or spelling is needed. *)
+From KV Require Proofs.StripSchedule.
+From KV Require Import Model.NetlistSem Proofs.SemCompose.
+Theorem C07_build_stems_defined : forall c len, wf_netlist c -> comb_acyclic c -> exists stems, build_stems c true len = Some stems.
+Proof. exact KV.Proofs.StripSchedule.build_stems_defined. Qed.
+
+Theorem C07_stems_are_chain_heads : forall c, wf_netlist c -> comb_acyclic c -> forall len stems,
+  length (c_lines c) <= len -> build_stems c true len = Some stems -> forall x,
+  (x < length (c_lines c) ->
+     KV.Proofs.StripSchedule.is_stem_of c (stemmed stems x) x /\ stemmed stems x < length (c_lines c) /\
+     (stemmed stems x = x \/ posLt c (l_drv (get_line c (stemmed stems x))) (l_drv (get_line c x)))) /\
+  (length (c_lines c) <= x -> stemmed stems x = x).
+Proof. exact KV.Proofs.StripSchedule.stemmed_spec. Qed.
+
+Theorem C07_build_ops_ssa_strip : forall c stems, wf_netlist c -> comb_acyclic c ->
+  build_stems c true (length (c_lines c) + 3 + 2 * length (s_nodes c)) = Some stems ->
+  ssa_topo stems (length (c_lines c) + 1) (build_ops c true) = true.
+Proof. exact KV.Proofs.StripSchedule.build_ops_ssa_strip. Qed.
+
+Theorem C07_build_levels_valid_strip : forall c stems, wf_netlist c -> comb_acyclic c ->
+  let nl := length (c_lines c) in let len := nl + 3 + 2 * length (s_nodes c) in
+  build_stems c true len = Some stems ->
+  sched_check (stemmed stems) (nl + 1)
+    (split_levels (rev (ls_starts (levelize stems (build_ops c true) len))) (build_ops c true) 0) = true.
+Proof. exact KV.Proofs.StripSchedule.build_levels_valid_strip. Qed.
+
+(* ... and this is literally the schedule half of the certificate of Model/SimOpsCert.v, for EVERY result of build: any capacities,
+   c_reuse on or off, strip_forks on or off *)
+From KV Require Import Model.SimOpsCert.
+From Coq Require Import NArith.
+Theorem C07_build_sched_cert : forall c caps cmin reuse strip so, wf_netlist c -> comb_acyclic c ->
+  build c caps cmin reuse strip = Some so ->
+  sched_check (stemmed (so_stems so)) (so_nlines so + 1) (split_levels (so_level_starts so) (so_ops so) 0) = true /\
+  sched_check (so_alias c so) (so_nlines so + 1) (split_levels (so_level_starts so) (so_ops so) 0) = true.
+Proof. exact KV.Proofs.StripSchedule.build_sched_cert. Qed.
